@@ -111,7 +111,9 @@ func c19Run(e *domEnv, sc c19Scenario, point string) (obs c19Obs, fail string) {
 	}
 	// the new binary
 	w.Opts.Upgrades = 0
-	w.Reopen()
+	if p := guard(func() { w.Reopen() }); p != "" {
+		return obs, "the new binary cannot start at the upgrade height: " + firstLineOf(p)
+	}
 	if w.Height != H-1 {
 		return obs, fmt.Sprintf("new binary opened at height %d, expected %d", w.Height, H-1)
 	}
@@ -119,7 +121,9 @@ func c19Run(e *domEnv, sc c19Scenario, point string) (obs c19Obs, fail string) {
 		return obs, "upgrade block panicked in BeginBlock: " + firstLineOf(p)
 	}
 	if point == "H-after-BeginBlock" {
-		w.Reopen()
+		if p := guard(func() { w.Reopen() }); p != "" {
+			return obs, "the new binary cannot restart at the upgrade height: " + firstLineOf(p)
+		}
 		if p := guard(func() { w.BeginBlock() }); p != "" {
 			return obs, "upgrade block panicked in BeginBlock after a restart at H: " + firstLineOf(p)
 		}
@@ -130,7 +134,9 @@ func c19Run(e *domEnv, sc c19Scenario, point string) (obs c19Obs, fail string) {
 		return obs, "upgrade block panicked in EndBlock: " + firstLineOf(p)
 	}
 	if point == "H-after-EndBlock" {
-		w.Reopen()
+		if p := guard(func() { w.Reopen() }); p != "" {
+			return obs, "the new binary cannot restart at the upgrade height: " + firstLineOf(p)
+		}
 		if p := guard(func() { w.BeginBlock(); traffic(1); w.EndBlock() }); p != "" {
 			return obs, "upgrade block panicked when re-executed after a restart before Commit: " + firstLineOf(p)
 		}
@@ -138,7 +144,9 @@ func c19Run(e *domEnv, sc c19Scenario, point string) (obs c19Obs, fail string) {
 	obs.hashes = append(obs.hashes, hex.EncodeToString(w.Commit()))
 	obs.dumps = append(obs.dumps, customHash(w))
 	if point == "after-Commit-H" {
-		w.Reopen()
+		if p := guard(func() { w.Reopen() }); p != "" {
+			return obs, "the new binary cannot restart after the upgrade block: " + firstLineOf(p)
+		}
 	}
 	for i := 2; i <= 3; i++ {
 		if p := guard(func() { w.BeginBlock(); traffic(i); w.EndBlock() }); p != "" {
@@ -146,7 +154,9 @@ func c19Run(e *domEnv, sc c19Scenario, point string) (obs c19Obs, fail string) {
 		}
 		obs.hashes = append(obs.hashes, hex.EncodeToString(w.Commit()))
 		if i == 2 && point == "after-H+1" {
-			w.Reopen()
+			if p := guard(func() { w.Reopen() }); p != "" {
+				return obs, "the new binary cannot restart after H+1: " + firstLineOf(p)
+			}
 		}
 	}
 	obs.dumps = append(obs.dumps, customHash(w))
